@@ -576,6 +576,34 @@ def eval_scrypt_validate(n, r, p):
     return []
 
 
+def eval_scrypt_integerify(n, r, lane):
+    """RFC 7914 section 4: Integerify(B[0..2r-1]) reads B[2r-1] -- the LAST 64-byte block -- as a little-endian integer,
+    taken mod N.  N beyond 2^32 cannot be run (terabytes), so the engine's integerify step is probed directly (white box
+    on ScryptEngine(n, r, p).integerify over the engine's 32-bit-word block representation; skipped with a note if the
+    engine is restructured): one-hot word lanes say which words of the block reach the result, and where."""
+    try:
+        from passlib.crypto.scrypt._builtin import ScryptEngine
+
+        eng = ScryptEngine(n, r, 1)
+        f = eng.integerify
+        words = 32 * r
+    except Exception as e:  # noqa: BLE001
+        raise HarnessError(f"ScryptEngine(n={n}).integerify is not reachable any more: {e!r}") from e
+    X = [0] * words
+    X[lane] = 0x80000001
+    raw = b"".join(w.to_bytes(4, "little") for w in X)
+    want = int.from_bytes(raw[-64:], "little") % n
+    try:
+        got = f(X) % n
+    except Exception as e:  # noqa: BLE001
+        return [(f"C11|scrypt|integerify:raises:{_exc(e)}", f"ScryptEngine({n}, {r}, 1).integerify raised {e!r}")]
+    if got != want:
+        return [(f"C11|scrypt|integerify:n{'>' if n > 0xFFFFFFFF else '<='}2^32:value",
+                 f"ScryptEngine(n=2^{n.bit_length() - 1}, r={r}).integerify(block with word {lane - words} = 0x80000001) mod n = {got:#x}, "
+                 f"RFC 7914 Integerify (last 64-byte block, little-endian) mod n = {want:#x}")]
+    return []
+
+
 def eval_scrypt_keylen(keylen):
     """frontend: dkLen must be a positive integer <= (2^32-1)*32"""
     from passlib.crypto import scrypt as S
@@ -886,7 +914,62 @@ def eval_hmac_after_ctor(name, variant, order):
     return out
 
 
+def eval_own_ctor(name, variant, rounds, keylen):
+    """a digest CONSTRUCTOR of the application's own (the documented 'digest name or constructor' argument) that reports a
+    standard name: HMAC / PBKDF2 over it are HMAC / PBKDF2 of THAT function (RFC 2104 / 2898 over the constructor, through
+    the standard library's hmac), or the constructor is refused -- never silently the standard digest of the same name"""
+    import functools
+    import hashlib
+    import hmac as std_hmac
+
+    from passlib.crypto import digest as G
+
+    if variant == "truncated":
+        ctor = functools.partial(getattr(hashlib, name), digest_size=16) if name.startswith("blake2") else None
+    elif variant == "personalised":
+        ctor = functools.partial(getattr(hashlib, name), person=b"c11") if name.startswith("blake2") else None
+    else:
+        ctor = functools.partial(hashlib.new, name)
+    if ctor is None:
+        return []
+    out = []
+    key, msg, salt = b"key-c11", b"message-c11", b"salt-c11"
+    try:
+        hlen = ctor().digest_size
+    except ValueError:
+        return []  # the host's hashlib does not offer this digest (md4): no constructor of the application's own to offer
+
+    def ref_pbkdf2():
+        res = b""
+        for idx in range(1, -(-(keylen or hlen) // hlen) + 1):
+            u = std_hmac.new(key, salt + idx.to_bytes(4, "big"), ctor).digest()
+            acc_ = int.from_bytes(u, "big")
+            for _ in range(rounds - 1):
+                u = std_hmac.new(key, u, ctor).digest()
+                acc_ ^= int.from_bytes(u, "big")
+            res += acc_.to_bytes(hlen, "big")
+        return res[: keylen or hlen]
+
+    G._hash_info_cache.clear()
+    try:
+        for what, f, want in (("hmac", lambda: G.compile_hmac(ctor, key)(msg), std_hmac.new(key, msg, ctor).digest()),
+                              ("pbkdf2", lambda: G.pbkdf2_hmac(ctor, key, salt, rounds, keylen), ref_pbkdf2())):
+            try:
+                got = f()
+            except (ValueError, TypeError):
+                continue  # refusing the application's constructor is fine
+            if got != want:
+                out.append((f"C11|{what}|own_constructor:{variant}:value",
+                            f"{what} over a {variant} {name} constructor (rounds={rounds}, keylen={keylen}) = {got.hex()}, over that constructor the standard library gives {want.hex()}"))
+    except Exception as e:  # noqa: BLE001
+        out.append((f"C11|hmac|own_constructor:{variant}:raises:{_exc(e)}", f"{variant} {name}: raised {e!r}"))
+    finally:
+        G._hash_info_cache.clear()
+    return out
+
+
 EVALS = {
+    "own_ctor": lambda c: eval_own_ctor(c["digest"], c["variant"], c["rounds"], c["keylen"]),
     "hmac_after_ctor": lambda c: eval_hmac_after_ctor(c["digest"], c["variant"], c["order"]),
     "des_int": lambda c: eval_des_int(c["part"], c["key"], c["block"], c["salt"], c["rounds"]),
     "des_block": lambda c: eval_des_block(c["part"], c["key"], c["block"], c["salt"], c["rounds"]),
@@ -900,6 +983,7 @@ EVALS = {
     "scrypt": lambda c: eval_scrypt(c["via"], c["secret"], c["salt"], c["n"], c["r"], c["p"], c["keylen"]),
     "scrypt_validate": lambda c: eval_scrypt_validate(c["n"], c["r"], c["p"]),
     "scrypt_keylen": lambda c: eval_scrypt_keylen(c["keylen"]),
+    "scrypt_integerify": lambda c: eval_scrypt_integerify(c["n"], c["r"], c["lane"]),
     "hmac": lambda c: eval_hmac(c["digest"], c["key"], c["msg"], c["mode"]),
     "pbkdf1": lambda c: eval_pbkdf1(c["digest"], c["secret"], c["salt"], c["rounds"], c["keylen"]),
     "pbkdf2": lambda c: eval_pbkdf2(c["digest"], c["secret"], c["salt"], c["rounds"], c["keylen"]),
@@ -1282,6 +1366,11 @@ def w_scrypt_validate(acc, task, seed):
                 acc.axis("scrypt_validate_kind", kind or "valid")
     for keylen in (-1, 0, (2**32 - 1) * 32 + 1, 1 << 40):
         _do(acc, {"kind": "scrypt_keylen", "keylen": keylen}, ("scrypt", "keylen_invalid", keylen), "refused")
+    # Integerify for every size class of N (the 64-bit branch is unreachable by running scrypt)
+    for nb in (1, 4, 16, 31, 32, 33, 40, 63):
+        for r in (1, 2, 8):
+            for lane in range(32 * r - 20, 32 * r):
+                _do(acc, {"kind": "scrypt_integerify", "n": 1 << nb, "r": r, "lane": lane}, ("scrypt", "integerify", nb, r, lane - 32 * r))
 
 
 def w_hmac(acc, task, seed):
@@ -1298,6 +1387,10 @@ def w_hmac(acc, task, seed):
     for variant in ("truncated", "personalised", "hashlib_new"):
         for order in ("ctor_first", "name_first"):
             _do(acc, {"kind": "hmac_after_ctor", "digest": name, "variant": variant, "order": order}, ("hmac", name, "after_ctor", variant, order))
+    for variant in ("truncated", "personalised", "hashlib_new"):
+        for rounds in (1, 3):
+            for keylen in (None, 8, hlen + 1):
+                _do(acc, {"kind": "own_ctor", "digest": name, "variant": variant, "rounds": rounds, "keylen": keylen}, ("hmac", name, "own_ctor", variant, rounds, keylen))
     # text keys whose CHARACTER count and utf-8 BYTE count fall on different sides of the block size
     # (the key is 'encoded using utf-8' first, the block-size rule applies to the bytes)
     for ch, width in (("é", 2), ("€", 3), ("\U0001f600", 4)):
